@@ -41,7 +41,9 @@ func (x *Exec) rangeNext(fr *Frame, t *ssa.Next, g *Term) Value {
 		// ASCII only: bytes >= 0x80 are outside the bound (recorded as assumption obligation)
 		x.asciiAssume(ch, c.And(g, ok))
 		key := rs.Pos
-		it.Obj.Val = &RangeState{Str: rs.Str, Pos: c.Ite(c.And(g, ok), c.Add(rs.Pos, c.Const(64, 1)), rs.Pos)}
+		// the iterator is private to its loop and a later Next only runs on paths on which this one ran,
+		// so the advance need not be guarded by the path condition (keeps Pos concrete)
+		it.Obj.Val = &RangeState{Str: rs.Str, Pos: c.Ite(ok, c.Add(rs.Pos, c.Const(64, 1)), rs.Pos)}
 		return &TupleV{E: []Value{ok, key, c.ZeroExt(ch, 24)}}
 	}
 	x.fail("range/next over maps not supported")
@@ -256,6 +258,7 @@ func (x *Exec) libModel(fn *ssa.Function, pkg, short, name string, args []Value,
 			if allKnown(0) {
 				return &StrV{Known: true, S: strings.TrimSpace(ks(args[0]))}, nil, true
 			}
+			return x.trimSpaceSym(args[0].(*StrV), g), nil, true
 		case "strings.ToUpper":
 			if allKnown(0) {
 				return &StrV{Known: true, S: strings.ToUpper(ks(args[0]))}, nil, true
@@ -276,6 +279,9 @@ func (x *Exec) libModel(fn *ssa.Function, pkg, short, name string, args []Value,
 			if allKnown(0, 1) {
 				return c.Const(64, uint64(int64(strings.Index(ks(args[0]), ks(args[1]))))), nil, true
 			}
+			if r := x.indexSym(args[0].(*StrV), args[1].(*StrV)); r != nil {
+				return r, nil, true
+			}
 		case "strings.Split", "strings.Fields":
 			if allKnown(0) && (short == "Fields" || allKnown(1)) {
 				var parts []string
@@ -285,6 +291,12 @@ func (x *Exec) libModel(fn *ssa.Function, pkg, short, name string, args []Value,
 					parts = strings.Split(ks(args[0]), ks(args[1]))
 				}
 				return x.strSlice(parts), nil, true
+			}
+			if short == "Split" && allKnown(1) && len(ks(args[1])) == 1 {
+				return x.splitSym(args[0].(*StrV), ks(args[1])[0], false, g), nil, true
+			}
+			if short == "Fields" {
+				return x.splitSym(args[0].(*StrV), ' ', true, g), nil, true
 			}
 		case "strings.Join":
 			if sl, ok := args[0].(*SliceV); ok && sl.Len.IsConst() && allKnown(1) {
@@ -314,6 +326,15 @@ func (x *Exec) libModel(fn *ssa.Function, pkg, short, name string, args []Value,
 				return s, nil, true
 			}
 			return &StrV{Known: true}, nil, true
+		}
+	case "regexp":
+		if name == "(*regexp.Regexp).MatchString" {
+			if pv, ok := args[0].(*PtrV); ok && pv.Obj != nil {
+				if rv, ok := pv.Obj.Val.(*RegexV); ok {
+					return x.regexMatch(rv, args[1].(*StrV), g), nil, true
+				}
+			}
+			x.fail("regexp.MatchString: receiver is not a package-level MustCompile'd pattern")
 		}
 	case "strconv":
 		switch name {
@@ -418,4 +439,104 @@ func (x *Exec) atoiSym(s *StrV) Value {
 	val = c.Ite(neg, c.Neg(val), val)
 	val = c.Ite(ok, val, c.Const(64, 0))
 	return &TupleV{E: []Value{val, &IfaceGV{G: ok, A: &IfaceV{}, B: &IfaceV{T: errT, V: x.opaqueString()}}}}
+}
+
+func isSpaceByte(c *Ctx, b *Term) *Term {
+	r := c.Eq(b, c.Const(8, ' '))
+	for _, k := range []byte{'\t', '\n', '\v', '\f', '\r'} {
+		r = c.Or(r, c.Eq(b, c.Const(8, uint64(k))))
+	}
+	return r
+}
+
+// trimSpaceSym: strings.TrimSpace on a symbolic string is the identity under the recorded assumption
+// that its first and last byte are not ASCII white space (leading/trailing white space is outside the
+// bound; harnesses place white space concretely where they want it).
+func (x *Exec) trimSpaceSym(s *StrV, g *Term) Value {
+	c := x.c
+	ss := x.strSym(s)
+	n := len(ss.B)
+	if n == 0 {
+		return s
+	}
+	x.modeled["strings.TrimSpace(symbolic): identity; first/last byte assumed not white space"]++
+	nonEmpty := c.And(g, c.Ult(c.Const(64, 0), ss.Len))
+	if fb := ss.B[0]; !fb.IsConst() {
+		x.assumes = append(x.assumes, c.Implies(nonEmpty, c.Not(isSpaceByte(c, fb))))
+	} else if fb.K == ' ' || (fb.K >= 9 && fb.K <= 13) {
+		x.fail("TrimSpace(symbolic) with concrete leading white space")
+	}
+	last := x.strIndexNoCheck(ss, c.Sub(ss.Len, c.Const(64, 1)))
+	if !last.IsConst() {
+		x.assumes = append(x.assumes, c.Implies(nonEmpty, c.Not(isSpaceByte(c, last))))
+	} else if last.K == ' ' || (last.K >= 9 && last.K <= 13) {
+		x.fail("TrimSpace(symbolic) with concrete trailing white space")
+	}
+	return s
+}
+
+// splitSym: strings.Split(s, sep) / strings.Fields(s) for a string of concrete length whose separator
+// positions are concrete: symbolic bytes are assumed (recorded) not to be separators.
+func (x *Exec) splitSym(s *StrV, sep byte, fields bool, g *Term) Value {
+	c := x.c
+	ss := x.strSym(x.strNormalize(s))
+	if !ss.Len.IsConst() {
+		x.fail("strings.Split/Fields(symbolic): length must be concrete")
+	}
+	n := int(ss.Len.K)
+	x.modeled["strings.Split/Fields(symbolic): separators only at concrete positions; symbolic bytes assumed not to be separators"]++
+	var parts []Value
+	cur := &StrV{Len: c.Const(64, 0)}
+	flush := func() {
+		cur.Len = c.Const(64, uint64(len(cur.B)))
+		if !(fields && len(cur.B) == 0) {
+			parts = append(parts, x.strNormalize(cur))
+		}
+		cur = &StrV{Len: c.Const(64, 0)}
+	}
+	for i := 0; i < n; i++ {
+		b := ss.B[i]
+		if b.IsConst() {
+			isSep := byte(b.K) == sep
+			if fields {
+				isSep = b.K == ' ' || (b.K >= 9 && b.K <= 13)
+			}
+			if isSep {
+				flush()
+				continue
+			}
+		} else if fields {
+			x.assumes = append(x.assumes, c.Implies(g, c.Not(isSpaceByte(c, b))))
+		} else {
+			x.assumes = append(x.assumes, c.Implies(g, c.Ne(b, c.Const(8, uint64(sep)))))
+		}
+		cur.B = append(cur.B, b)
+	}
+	flush()
+	st := types.Typ[types.String]
+	o := x.newObject(types.NewArray(st, int64(len(parts))), &ArrayV{E: parts}, "strslice")
+	ln := c.Const(64, uint64(len(parts)))
+	if len(parts) == 0 {
+		return &SliceV{Off: c.Const(64, 0), Len: ln, Cap: ln}
+	}
+	return &SliceV{Base: &PtrV{Obj: o}, Off: c.Const(64, 0), Len: ln, Cap: ln}
+}
+
+// indexSym: strings.Index(hay, needle) for a needle of concrete length and a haystack of concrete length.
+func (x *Exec) indexSym(hay, needle *StrV) Value {
+	c := x.c
+	h, nd := x.strSym(x.strNormalize(hay)), x.strSym(x.strNormalize(needle))
+	if !h.Len.IsConst() || !nd.Len.IsConst() {
+		return nil
+	}
+	hn, nn := int(h.Len.K), int(nd.Len.K)
+	r := c.Const(64, ^uint64(0))
+	for i := hn - nn; i >= 0; i-- {
+		m := c.True
+		for j := 0; j < nn; j++ {
+			m = c.And(m, c.Eq(h.B[i+j], nd.B[j]))
+		}
+		r = c.Ite(m, c.Const(64, uint64(i)), r)
+	}
+	return r
 }
